@@ -31,31 +31,35 @@ def layer_roundtrip_full : Prop :=
   ∀ ls, mvtWF ls = true → ∃ t, marshalVT ls = .ok t ∧ unmarshalVT t = .ok (expectLayers ls)
 
 
-/-! #### helpers for `layer_roundtrip_partial'` -/
+/-! #### helpers for `layer_roundtrip_exact'` / `layer_roundtrip_partial'`
+
+  Everything is stated for the decoder run with an arbitrary orientation function `ori` that
+  agrees with the exact one on the rings of the input (`oriAgree`), and for layers without a
+  +0 / −0 clash (`noZeroClash (layerVals l)`); `vs` is the list of all values of the layer. -/
 
 -- `KVE.le_refl`, `KVE.le_trans` come from C03Props.
 
-theorem decodeFeature_ok (keys : List String) (vals : List DVal) (a : Nat) (id : Option Nat)
+theorem decodeFeature_ok (ori : List (Pt Int) → Int) (keys : List String) (vals : List DVal) (a : Nat) (id : Option Nat)
     (tags : List W) (gt : Int) (ws : List W) (props : List (String × DVal)) (g : Geom Int)
     (ht : decodeTags keys vals tags [] = .ok props) (hw : ws ≠ [])
-    (hg : (decodeGeometryIter oriInt gt ws a).1 = .ok g) :
-    ∃ a', decodeFeature oriInt keys vals a ⟨id, tags, gt, ws⟩ = (.ok ⟨id, g, props⟩, a') := by
+    (hg : (decodeGeometryIter ori gt ws a).1 = .ok g) :
+    ∃ a', decodeFeature ori keys vals a ⟨id, tags, gt, ws⟩ = (.ok ⟨id, g, props⟩, a') := by
   have hemp : ws.isEmpty = false := by
     cases ws with
     | nil => exact absurd rfl hw
     | cons _ _ => rfl
-  rcases hd : decodeGeometryIter oriInt gt ws a with ⟨r, s⟩
+  rcases hd : decodeGeometryIter ori gt ws a with ⟨r, s⟩
   rw [hd] at hg
   simp only at hg
   subst hg
   refine ⟨s.alloc, ?_⟩
   simp [decodeFeature, ht, hemp, hd]
 
-theorem decodeFeatures_append (keys : List String) (vals : List DVal) (xs ys : List VTFeature) :
+theorem decodeFeatures_append (ori : List (Pt Int) → Int) (keys : List String) (vals : List DVal) (xs ys : List VTFeature) :
     ∀ (a a1 a2 : Nat) (r1 r2 : List DFeature),
-      decodeFeatures oriInt keys vals a xs = (.ok r1, a1) →
-      decodeFeatures oriInt keys vals a1 ys = (.ok r2, a2) →
-      decodeFeatures oriInt keys vals a (xs ++ ys) = (.ok (r1 ++ r2), a2) := by
+      decodeFeatures ori keys vals a xs = (.ok r1, a1) →
+      decodeFeatures ori keys vals a1 ys = (.ok r2, a2) →
+      decodeFeatures ori keys vals a (xs ++ ys) = (.ok (r1 ++ r2), a2) := by
   induction xs with
   | nil =>
     intro a a1 a2 r1 r2 h1 h2
@@ -66,12 +70,12 @@ theorem decodeFeatures_append (keys : List String) (vals : List DVal) (xs ys : L
   | cons x xs ih =>
     intro a a1 a2 r1 r2 h1 h2
     simp only [decodeFeatures, List.cons_append] at h1 ⊢
-    rcases hx : decodeFeature oriInt keys vals a x with ⟨rx, ax⟩
+    rcases hx : decodeFeature ori keys vals a x with ⟨rx, ax⟩
     rw [hx] at h1
     cases rx with
     | ok x' =>
       simp only at h1 ⊢
-      rcases hxs : decodeFeatures oriInt keys vals ax xs with ⟨rxs, axs⟩
+      rcases hxs : decodeFeatures ori keys vals ax xs with ⟨rxs, axs⟩
       rw [hxs] at h1
       cases rxs with
       | ok xs' =>
@@ -86,38 +90,42 @@ theorem decodeFeatures_append (keys : List String) (vals : List DVal) (xs ys : L
     | panic _ => simp at h1
 
 /-- All features of `xs` decode, from every value of the counter, to `r`. -/
-def DecOK (e : KVE) (xs : List VTFeature) (r : List DFeature) : Prop :=
-  ∀ a, ∃ a', decodeFeatures oriInt e.keys e.dvals a xs = (.ok r, a')
+def DecOK (ori : List (Pt Int) → Int) (e : KVE) (xs : List VTFeature) (r : List DFeature) : Prop :=
+  ∀ a, ∃ a', decodeFeatures ori e.keys e.dvals a xs = (.ok r, a')
 
-theorem DecOK.append {e : KVE} {xs ys : List VTFeature} {r1 r2 : List DFeature}
-    (h1 : DecOK e xs r1) (h2 : DecOK e ys r2) : DecOK e (xs ++ ys) (r1 ++ r2) := by
+theorem DecOK.append {ori : List (Pt Int) → Int} {e : KVE} {xs ys : List VTFeature} {r1 r2 : List DFeature}
+    (h1 : DecOK ori e xs r1) (h2 : DecOK ori e ys r2) : DecOK ori e (xs ++ ys) (r1 ++ r2) := by
   intro a
   obtain ⟨a1, h1⟩ := h1 a
   obtain ⟨a2, h2⟩ := h2 a1
-  exact ⟨a2, decodeFeatures_append _ _ _ _ _ _ _ _ _ h1 h2⟩
+  exact ⟨a2, decodeFeatures_append _ _ _ _ _ _ _ _ _ _ h1 h2⟩
 
-theorem DecOK.nil (e : KVE) : DecOK e [] [] := fun a => ⟨a, rfl⟩
+theorem DecOK.nil (ori : List (Pt Int) → Int) (e : KVE) : DecOK ori e [] [] := fun a => ⟨a, rfl⟩
 
-theorem addSingle_ok (fs : List VTFeature) (e : KVE) (g : Geom Int) (props : List (String × PVal))
+theorem addSingle_ok (ori : List (Pt Int) → Int) (vs : List PVal) (fs : List VTFeature) (e : KVE) (g : Geom Int)
+    (props : List (String × PVal))
     (id : IdVal) (hg : geomWF g = true) (hd : geomNoDupClose g = true)
-    (hn : nodupKeys props = true) (hv : ∀ p ∈ props, pvalWF p.2 = true) (hz : noNegZero props = true)
-    (hi : KVE.Inv e) (hk : e.keys.length + props.length ≤ 2^32)
+    (hori : ∀ r ∈ ringsOf g, ori r = oriInt r)
+    (hn : nodupKeys props = true) (hv : ∀ p ∈ props, pvalWF p.2 = true)
+    (hsub : ∀ p ∈ props, p.2 ∈ vs) (hnc : noZeroClash vs = true)
+    (hi : KVE.InvZ vs e) (hk : e.keys.length + props.length ≤ 2^32)
     (hl : e.vals.length + props.length ≤ 2^32) :
-    ∃ vf e', addSingle fs e g props id = .ok (fs ++ [vf], e') ∧ KVE.Inv e' ∧ KVE.le e e' ∧
+    ∃ vf e', addSingle fs e g props id = .ok (fs ++ [vf], e') ∧ KVE.InvZ vs e' ∧ KVE.le e e' ∧
       e'.keys.length ≤ e.keys.length + props.length ∧ e'.vals.length ≤ e.vals.length + props.length ∧
       ∀ e'', KVE.le e' e'' →
-        DecOK e'' [vf] [⟨convertID id, normG g, expectProps props⟩] := by
-  obtain ⟨t, ws, henc, hws, _⟩ := geometry_roundtrip_iter g hg hd 0
-  obtain ⟨tags, e', hp, hi', hle, hk', hl', hdec⟩ := encodeProperties_decode e props hn hv hz hi hk hl
+        DecOK ori e'' [vf] [⟨convertID id, normG g, expectProps props⟩] := by
+  obtain ⟨t, ws, henc, hws, _⟩ := geometry_roundtrip_iter_ori ori g hg hd hori 0
+  obtain ⟨tags, e', hp, hi', hle, hk', hl', hdec⟩ :=
+    encodeProperties_decodeZ vs e props hn hv hsub hnc hi hk hl
   refine ⟨⟨convertID id, tags, t, ws⟩, e', ?_, hi', hle, hk', hl', ?_⟩
   · simp [addSingle, henc, hp]
   · intro e'' hle'' a
-    obtain ⟨t', ws', henc', _, hgeo⟩ := geometry_roundtrip_iter g hg hd a
+    obtain ⟨t', ws', henc', _, hgeo⟩ := geometry_roundtrip_iter_ori ori g hg hd hori a
     rw [henc] at henc'
     simp only [Res.ok.injEq, Prod.mk.injEq] at henc'
     obtain ⟨ht, hw⟩ := henc'
     subst ht hw
-    obtain ⟨a', ha'⟩ := decodeFeature_ok e''.keys e''.dvals a (convertID id) tags t ws _ _
+    obtain ⟨a', ha'⟩ := decodeFeature_ok ori e''.keys e''.dvals a (convertID id) tags t ws _ _
       (hdec e'' hle'') hws hgeo
     refine ⟨a', ?_⟩
     simp [decodeFeatures, ha']
@@ -128,32 +136,40 @@ theorem addFeature_val (fs : List VTFeature) (e : KVE) (id : IdVal) (props : Lis
     expectFeature ⟨id, .val g, props⟩ = [⟨convertID id, normG g, expectProps props⟩] := by
   cases g <;> first | (simp [geomWF] at hg; done) | exact ⟨rfl, rfl⟩
 
-theorem addFeature_ok (fs : List VTFeature) (e : KVE) (f : Feature)
-    (hwf : featureWF f = true) (hx : featureExact f = true)
-    (hi : KVE.Inv e) (hk : e.keys.length + f.props.length ≤ 2^32)
+/-- the part of `featureExact` that does not concern zeros -/
+def featureShape (f : Feature) : Bool := singleColl f.geom && gvalNoDupClose f.geom
+
+theorem addFeature_ok (ori : List (Pt Int) → Int) (vs : List PVal) (fs : List VTFeature) (e : KVE) (f : Feature)
+    (hwf : featureWF f = true) (hx : featureShape f = true)
+    (hori : ∀ r ∈ gvalRings f.geom, ori r = oriInt r)
+    (hsub : ∀ p ∈ f.props, p.2 ∈ vs) (hnc : noZeroClash vs = true)
+    (hi : KVE.InvZ vs e) (hk : e.keys.length + f.props.length ≤ 2^32)
     (hl : e.vals.length + f.props.length ≤ 2^32) :
-    ∃ new e', addFeature fs e f = .ok (fs ++ new, e') ∧ KVE.Inv e' ∧ KVE.le e e' ∧
+    ∃ new e', addFeature fs e f = .ok (fs ++ new, e') ∧ KVE.InvZ vs e' ∧ KVE.le e e' ∧
       e'.keys.length ≤ e.keys.length + f.props.length ∧
       e'.vals.length ≤ e.vals.length + f.props.length ∧
-      ∀ e'', KVE.le e' e'' → DecOK e'' new (expectFeature f) := by
+      ∀ e'', KVE.le e' e'' → DecOK ori e'' new (expectFeature f) := by
   obtain ⟨id, geom, props⟩ := f
-  simp only [featureWF, featureExact, Bool.and_eq_true, List.all_eq_true] at hwf hx
+  simp only [featureWF, featureShape, Bool.and_eq_true, List.all_eq_true] at hwf hx
   obtain ⟨⟨⟨hgw, _⟩, hn⟩, hv⟩ := hwf
-  obtain ⟨⟨hsc, hnd⟩, hz⟩ := hx
+  obtain ⟨hsc, hnd⟩ := hx
+  simp only at hori hsub
   have single : ∀ g, geomWF g = true → geomNoDupClose g = true →
+      (∀ r ∈ ringsOf g, ori r = oriInt r) →
       addFeature fs e ⟨id, geom, props⟩ = addSingle fs e g props id →
       expectFeature ⟨id, geom, props⟩ = [⟨convertID id, normG g, expectProps props⟩] →
-      ∃ new e', addFeature fs e ⟨id, geom, props⟩ = .ok (fs ++ new, e') ∧ KVE.Inv e' ∧ KVE.le e e' ∧
+      ∃ new e', addFeature fs e ⟨id, geom, props⟩ = .ok (fs ++ new, e') ∧ KVE.InvZ vs e' ∧ KVE.le e e' ∧
         e'.keys.length ≤ e.keys.length + props.length ∧
         e'.vals.length ≤ e.vals.length + props.length ∧
-        ∀ e'', KVE.le e' e'' → DecOK e'' new (expectFeature ⟨id, geom, props⟩) := by
-    intro g hg hd h1 h2
-    obtain ⟨vf, e', h, hi', hle, hk', hl', hdec⟩ := addSingle_ok fs e g props id hg hd hn hv hz hi hk hl
+        ∀ e'', KVE.le e' e'' → DecOK ori e'' new (expectFeature ⟨id, geom, props⟩) := by
+    intro g hg hd ho h1 h2
+    obtain ⟨vf, e', h, hi', hle, hk', hl', hdec⟩ :=
+      addSingle_ok ori vs fs e g props id hg hd ho hn hv hsub hnc hi hk hl
     exact ⟨[vf], e', by rw [h1, h], hi', hle, hk', hl', by rw [h2]; exact hdec⟩
   cases geom with
   | nilIface =>
     exact ⟨[], e, by simp [addFeature, gvalGeom], hi, KVE.le_refl e, by simp, by simp,
-      fun e'' _ => by simpa [expectFeature, gvalGeom] using DecOK.nil e''⟩
+      fun e'' _ => by simpa [expectFeature, gvalGeom] using DecOK.nil ori e''⟩
   | nilSlice k => simp [gvalWF] at hgw
   | val g =>
     by_cases hc : ∃ gs, g = .collection gs
@@ -162,31 +178,36 @@ theorem addFeature_ok (fs : List VTFeature) (e : KVE) (f : Feature)
       match gs, hsc with
       | [g], _ =>
         simp only [gvalWF, gvalNoDupClose, List.all_cons, List.all_nil, Bool.and_true] at hgw hnd
-        exact single g hgw hnd rfl rfl
+        have ho : ∀ r ∈ ringsOf g, ori r = oriInt r := by
+          intro r hr; exact hori r (by simpa [gvalRings] using hr)
+        exact single g hgw hnd ho rfl rfl
     · have hgw' : geomWF g = true := by
         cases g <;> first | exact hgw | exact absurd ⟨_, rfl⟩ hc
       have hnd' : geomNoDupClose g = true := by
         cases g <;> first | exact hnd | exact absurd ⟨_, rfl⟩ hc
+      have ho : ∀ r ∈ ringsOf g, ori r = oriInt r := by
+        cases g <;> first | exact hori | exact absurd ⟨_, rfl⟩ hc
       obtain ⟨h1, h2⟩ := addFeature_val fs e id props g hgw'
-      exact single g hgw' hnd' h1 h2
+      exact single g hgw' hnd' ho h1 h2
 
-theorem addFeatures_ok (feats : List Feature) :
+theorem addFeatures_ok (ori : List (Pt Int) → Int) (vs : List PVal) (hnc : noZeroClash vs = true) (feats : List Feature) :
     ∀ (fs : List VTFeature) (e : KVE),
-      (∀ f ∈ feats, featureWF f = true ∧ featureExact f = true) → KVE.Inv e →
+      (∀ f ∈ feats, featureWF f = true ∧ featureShape f = true ∧
+        (∀ r ∈ gvalRings f.geom, ori r = oriInt r) ∧ ∀ p ∈ f.props, p.2 ∈ vs) → KVE.InvZ vs e →
       e.keys.length + (feats.map fun f => f.props.length).sum ≤ 2^32 →
       e.vals.length + (feats.map fun f => f.props.length).sum ≤ 2^32 →
-      ∃ new e', addFeatures fs e feats = .ok (fs ++ new, e') ∧ KVE.Inv e' ∧ KVE.le e e' ∧
-        ∀ e'', KVE.le e' e'' → DecOK e'' new (feats.flatMap expectFeature) := by
+      ∃ new e', addFeatures fs e feats = .ok (fs ++ new, e') ∧ KVE.InvZ vs e' ∧ KVE.le e e' ∧
+        ∀ e'', KVE.le e' e'' → DecOK ori e'' new (feats.flatMap expectFeature) := by
   induction feats with
   | nil =>
     intro fs e _ hi _ _
-    exact ⟨[], e, by simp [addFeatures], hi, KVE.le_refl e, fun e'' _ => DecOK.nil e''⟩
+    exact ⟨[], e, by simp [addFeatures], hi, KVE.le_refl e, fun e'' _ => DecOK.nil ori e''⟩
   | cons f rest ih =>
     intro fs e hf hi hk hl
     simp only [List.map_cons, List.sum_cons] at hk hl
-    obtain ⟨hwf, hx⟩ := hf f (List.mem_cons_self)
+    obtain ⟨hwf, hx, ho, hsub⟩ := hf f (List.mem_cons_self)
     obtain ⟨new1, e1, h1, hi1, hle1, hk1, hl1, hdec1⟩ :=
-      addFeature_ok fs e f hwf hx hi (by omega) (by omega)
+      addFeature_ok ori vs fs e f hwf hx ho hsub hnc hi (by omega) (by omega)
     obtain ⟨new2, e2, h2, hi2, hle2, hdec2⟩ :=
       ih (fs ++ new1) e1 (fun f' hf' => hf f' (List.mem_cons_of_mem _ hf')) hi1 (by omega) (by omega)
     refine ⟨new1 ++ new2, e2, ?_, hi2, KVE.le_trans hle1 hle2, ?_⟩
@@ -195,14 +216,23 @@ theorem addFeatures_ok (feats : List Feature) :
       rw [List.flatMap_cons]
       exact (hdec1 e'' (KVE.le_trans hle2 hle'')).append (hdec2 e'' hle'')
 
-theorem marshalLayer_ok (l : Layer) (hwf : layerWF l = true)
-    (hx : l.features.all featureExact = true) :
+theorem mem_layerVals {l : Layer} {f : Feature} (hf : f ∈ l.features) {p : String × PVal}
+    (hp : p ∈ f.props) : p.2 ∈ layerVals l := by
+  simp only [layerVals, List.mem_flatMap, List.mem_map]
+  exact ⟨f, hf, p, hp, rfl⟩
+
+theorem marshalLayer_ok (ori : List (Pt Int) → Int) (l : Layer) (hwf : layerWF l = true)
+    (hx : layerExactZ l = true)
+    (ho : ∀ f ∈ l.features, ∀ r ∈ gvalRings f.geom, ori r = oriInt r) :
     ∃ v, marshalLayer l = .ok v ∧
-      ∀ a, ∃ a', decodeLayer oriInt a v = (.ok (expectLayer l), a') := by
-  simp only [layerWF, Bool.and_eq_true, List.all_eq_true, decide_eq_true_eq] at hwf hx
+      ∀ a, ∃ a', decodeLayer ori a v = (.ok (expectLayer l), a') := by
+  simp only [layerWF, Bool.and_eq_true, List.all_eq_true, decide_eq_true_eq] at hwf
+  simp only [layerExactZ, Bool.and_eq_true, List.all_eq_true] at hx
   obtain ⟨⟨⟨_, _⟩, hf⟩, hsum⟩ := hwf
-  obtain ⟨new, e', h, _, _, hdec⟩ := addFeatures_ok l.features [] KVE.empty
-    (fun f hfm => ⟨hf f hfm, hx f hfm⟩) KVE.inv_empty
+  obtain ⟨hshape, hnc⟩ := hx
+  obtain ⟨new, e', h, _, _, hdec⟩ := addFeatures_ok ori (layerVals l) hnc l.features [] KVE.empty
+    (fun f hfm => ⟨hf f hfm, by simpa [featureShape] using hshape f hfm, ho f hfm,
+      fun p hp => mem_layerVals hfm hp⟩) (KVE.invZ_empty _)
     (by simp only [KVE.empty, List.length_nil]; omega)
     (by simp only [KVE.empty, List.length_nil]; omega)
   refine ⟨_, by simp only [marshalLayer, h]; rfl, ?_⟩
@@ -214,27 +244,62 @@ theorem marshalLayer_ok (l : Layer) (hwf : layerWF l = true)
   simp only [decodeLayer, List.nil_append, hv, ha']
   rfl
 
-theorem marshalVT_ok (ls : List Layer) (h : mvtWF ls = true) (hx : exactDomain ls = true) :
+theorem marshalVT_ok (ori : List (Pt Int) → Int) (ls : List Layer) (h : mvtWF ls = true)
+    (hx : exactDomainZ ls = true) (ho : oriAgree ori ls) :
     ∃ t, marshalVT ls = .ok t ∧
-      ∀ a, ∃ a', decodeLayers oriInt a t = (.ok (expectLayers ls), a') := by
+      ∀ a, ∃ a', decodeLayers ori a t = (.ok (expectLayers ls), a') := by
   induction ls with
   | nil => exact ⟨[], rfl, fun a => ⟨a, rfl⟩⟩
   | cons l ls ih =>
-    simp only [mvtWF, exactDomain, List.all_cons, Bool.and_eq_true] at h hx
-    obtain ⟨v, hv, hdv⟩ := marshalLayer_ok l h.1 hx.1
-    obtain ⟨vs, hvs, hdvs⟩ := ih h.2 hx.2
+    simp only [mvtWF, exactDomainZ, List.all_cons, Bool.and_eq_true] at h hx
+    obtain ⟨v, hv, hdv⟩ := marshalLayer_ok ori l h.1 hx.1 (fun f hf => ho l (by simp) f hf)
+    obtain ⟨vs, hvs, hdvs⟩ := ih h.2 hx.2 (fun m hm => ho m (List.mem_cons_of_mem _ hm))
     refine ⟨v :: vs, by simp [marshalVT, hv, hvs], ?_⟩
     intro a
     obtain ⟨a1, h1⟩ := hdv a
     obtain ⟨a2, h2⟩ := hdvs a1
     exact ⟨a2, by simp [decodeLayers, h1, h2, expectLayers]⟩
 
+/-- The round trip at full strength: the decoder run with any orientation function that is exact
+    on the rings of the input (`oriAgree`; Go runs the float64 shoelace), layers without a
+    +0 / −0 clash (`exactDomainZ`; a lone −0.0 comes back bit for bit). -/
+theorem layer_roundtrip_exact' (ori : List (Pt Int) → Int) (ls : List Layer) (h : mvtWF ls = true)
+    (hx : exactDomainZ ls = true) (ho : oriAgree ori ls) :
+    ∃ t, marshalVT ls = .ok t ∧ (unmarshalVTWith ori t).1 = .ok (expectLayers ls) := by
+  obtain ⟨t, ht, hd⟩ := marshalVT_ok ori ls h hx ho
+  obtain ⟨a', ha'⟩ := hd 0
+  exact ⟨t, ht, by simp [unmarshalVTWith, ha']⟩
+
+theorem exactDomainZ_of_exactDomain (ls : List Layer) (hx : exactDomain ls = true) :
+    exactDomainZ ls = true := by
+  simp only [exactDomain, exactDomainZ, List.all_eq_true] at hx ⊢
+  intro l hl
+  have hl' := hx l hl
+  simp only [layerExactZ, Bool.and_eq_true, List.all_eq_true]
+  refine ⟨fun f hf => ?_, ?_⟩
+  · have := hl' f hf
+    simp only [featureExact, Bool.and_eq_true] at this
+    exact this.1
+  · apply noZeroClash_of_noNegZero
+    intro v hv
+    simp only [layerVals, List.mem_flatMap, List.mem_map] at hv
+    obtain ⟨f, hf, p, hp, rfl⟩ := hv
+    have := hl' f hf
+    simp only [featureExact, Bool.and_eq_true, noNegZero, List.all_eq_true] at this
+    simpa using this.2 p hp
+
+theorem oriAgree_oriInt (ls : List Layer) : oriAgree oriInt ls := fun _ _ _ _ _ _ => rfl
+
 /-- Name, version, extent, feature order, ids, geometries and properties all come back. -/
 theorem layer_roundtrip_partial' (ls : List Layer) (h : mvtWF ls = true) (hx : exactDomain ls = true) :
-    ∃ t, marshalVT ls = .ok t ∧ unmarshalVT t = .ok (expectLayers ls) := by
-  obtain ⟨t, ht, hd⟩ := marshalVT_ok ls h hx
-  obtain ⟨a', ha'⟩ := hd 0
-  exact ⟨t, ht, by simp [unmarshalVT, unmarshalVTWith, ha']⟩
+    ∃ t, marshalVT ls = .ok t ∧ unmarshalVT t = .ok (expectLayers ls) :=
+  layer_roundtrip_exact' oriInt ls h (exactDomainZ_of_exactDomain ls hx) (oriAgree_oriInt ls)
+
+/-- A one-member collection is marshalled exactly like its member. -/
+theorem collection_single_as_member' (fs : List VTFeature) (e : KVE) (id : IdVal)
+    (props : List (String × PVal)) (g : Geom Int) (hg : ∀ gs, g ≠ .collection gs) :
+    addFeature fs e ⟨id, .val (.collection [g]), props⟩ = addFeature fs e ⟨id, .val g, props⟩ := by
+  cases g <;> first | rfl | exact absurd rfl (hg _)
 
 /-! #### helpers for `marshalVT_deterministic'` -/
 
@@ -392,12 +457,10 @@ def collection_members_full : Prop :=
   ∀ ls t, mvtWF ls = true → marshalVT ls = .ok t →
     t.map (fun l => l.features.length) = ls.map fun l => (l.features.flatMap expectFeature).length
 
-set_option linter.unusedVariables false in
 /-- True when every collection has exactly one member. -/
-theorem collection_members_partial' (ls : List Layer) (t : VTTile) (h : mvtWF ls = true)
+theorem collection_members_partial' (ls : List Layer) (t : VTTile)
     (hs : ∀ l ∈ ls, ∀ f ∈ l.features, singleColl f.geom = true) (hm : marshalVT ls = .ok t) :
     t.map (fun l => l.features.length) = ls.map fun l => (l.features.flatMap expectFeature).length := by
-  clear h
   induction ls generalizing t with
   | nil =>
     simp only [marshalVT, Res.ok.injEq] at hm
